@@ -160,11 +160,14 @@ class C11(PropBase):
                         base = rng.choice(L).split('/')
                         k = rng.randint(min(2, len(base)), len(base))
                         q = '/'.join(base[:k] + ['*'] * rng.choice([1, 1, 2]))      # children / grand-children level, incl. levels without path
-                    elif qi == 6:
-                        base = rng.choice(L).split('/')
-                        if len(base) > 5:
-                            base[5] = '>'
-                            q = '/'.join(base[:6] + ['*'] * (len(base) - 6))
+                    elif qi in (6, 16, 17, 18):
+                        # '>' with wildcards after it: the last of each group among several matches (files of several types / states)
+                        deep_ = [e for e in L if len(e.split('/')) > 6] or L
+                        base = rng.choice(deep_).split('/')
+                        i = 5 if qi != 18 else 3
+                        if len(base) > i:
+                            base[i] = '>'
+                            q = '/'.join(base[:i + 1] + ['*'] * (len(base) - i - 1))
                         else:
                             q = '/'.join(base)
                     elif qi % 4 == 0:
